@@ -9,6 +9,7 @@ import random
 import re
 import sys
 
+from ..b09ref import static
 from .. import boot, harness, run
 from ..cbref.ast import render
 from ..gen import progs
@@ -43,6 +44,15 @@ def strip_labels(text):
     return [_LABEL.sub("", ln, count=1) if re.match(r"^\d+( |$)", ln) else ln for ln in text.split("\n")]
 
 
+def _dangling(text):
+    """Jump targets of the last procedure of an emitted text that label no line (None when it does not parse)."""
+    procs, err = harness.parse_b09(text)
+    if procs is None:
+        return None
+    inf = static.analyse(procs[-1])
+    return {t for (_, t, _) in inf.jumps} - set(inf.labels)
+
+
 def check_pair(name, on, off):
     """on/off: outputs with the option on / off (for the size option: non-default / default).  -> problem or None"""
     if name == "filter_unused_linenum":
@@ -56,6 +66,12 @@ def check_pair(name, on, off):
         for x, y in zip(la, lb):
             if x != y and not (_LABEL.sub("", y, count=1) == x):
                 return {"line_on": x, "line_off": y}
+        # ... and only unused ones: a label still jumped to in the filtered text must still be there
+        dang = _dangling(on)
+        if dang:
+            dang -= (_dangling(off) or set())
+            if dang:
+                return {"removed_but_used_labels": sorted(dang)[:5]}
         return None
     if name == "initialize_vars":
         la, lb = on.split("\n"), off.split("\n")
